@@ -108,7 +108,9 @@ def pmap(modname, fn, shards, procs=None):
         results = [_run_shard((modname, fn, s)) for s in shards]
     else:
         ctx = multiprocessing.get_context("fork")
-        with ctx.Pool(min(procs, len(shards))) as pool:
+        # one fresh process per shard: module-level state of the code under test (caches, mutable
+        # defaults) must not leak from one shard into another
+        with ctx.Pool(min(procs, len(shards)), maxtasksperchild=1) as pool:
             results = pool.map(_run_shard, [(modname, fn, s) for s in shards], chunksize=1)
     for status, payload in results:
         if status == "err":
